@@ -3,7 +3,7 @@ import os, random, json, shutil, contextlib
 from . import _scn
 from .. import gen, rt, scenario, framework as fw, pool, witnesses
 
-LOCATIONS = ["plain/root", "ascmhl/root", "with space/root", "media/cache/root", "tmp/x.tmp/root", "a/b/c/d/root", "Clips/A/root", "Project [rushes]/root", "what?/st*r/root", "[ab]/root"]
+LOCATIONS = [".staging/root", "plain/root", "ascmhl/root", "with space/root", "media/cache/root", "tmp/x.tmp/root", "a/b/c/d/root", "Clips/A/root", "Project [rushes]/root", "what?/st*r/root", "[ab]/root"]
 
 
 def normalise_mtimes(root, t=1700000000):
